@@ -167,7 +167,8 @@ func (o *hostmapOracle) deleteWithCheck(n *simNode, h *HostInfo) bool {
 	}
 	hm.RUnlock()
 	final := hm.DeleteHostInfo(h)
-	if isLive && final == other {
+	_ = isLive // the reported value must be right for a tunnel that was already removed as well (second delete)
+	if final == other {
 		o.rc.Fail("delete-final-wrong", "node %d: DeleteHostInfo(%d %v) reported final=%v but another tunnel holding one of its addresses exists=%v", n.idx, h.localIndexId, h.vpnAddrs, final, other)
 		return false
 	}
@@ -256,7 +257,12 @@ func runC28(rc *sk.RunCtx) {
 			case 0: // delete any tunnel (primary or not) and check the reported value
 				if len(his) > 0 {
 					rc.Count("op.direct_delete", 1)
-					or.deleteWithCheck(nd, his[pick%len(his)])
+					h := his[pick%len(his)]
+					if or.deleteWithCheck(nd, h) && pick%3 == 0 {
+						// the same tunnel deleted a second time (two teardown paths racing to the same decision)
+						rc.Count("op.double_delete", 1)
+						or.deleteWithCheck(nd, h)
+					}
 				}
 			case 1: // promote any live tunnel
 				if len(his) > 0 {
